@@ -269,4 +269,22 @@ func init() {
 	mutant(&Mutant{Name: "c09-regexp-end-tag-matched-by-a-fixed-string", Property: "C09", File: "js/js.go",
 		Old: "m.prev[len(m.prev)-1] == '<' && isScriptEndTag(expr.Data) {", New: "m.prev[len(m.prev)-1] == '<' && bytes.HasPrefix(expr.Data, []byte(\"/script>\")) {",
 		Rule: "R09.20", Construct: "js.jsMinifier.minifyExpr/end tag recognised whatever its case and tail"})
+	mutant(&Mutant{Name: "c01-negated-chain-operand-not-grouped", Property: "C01", File: "js/util.go",
+		Old: "if !isEqX && binaryLeftPrecMap[binary.Op] <= exprPrec(binary.X) && exprPrec(binary.X) < js.OpUnary {", New: "if !isEqX && binaryLeftPrecMap[binary.Op] < exprPrec(binary.X) && exprPrec(binary.X) < js.OpUnary {",
+		Rule: "R01.57", Construct: "negated operand binary.X grouped below the unary level"})
+	mutant(&Mutant{Name: "c03-formmethod-dropped-as-a-default", Property: "C03", File: "html/html.go",
+		Old: "attr.Hash == Method && parse.EqualFold(val, getBytes) ||", New: "(attr.Hash == Method || attr.Hash == Formmethod) && parse.EqualFold(val, getBytes) ||",
+		Rule: "R03.27", Construct: "default value of formmethod may be dropped"})
+	mutant(&Mutant{Name: "c10-pi-skipped-by-a-loop-condition-without-the-error-exit", Property: "C10", File: "svg/svg.go",
+		Old: "\t\t\tfor {\n\t\t\t\tif t := *tb.Shift(); t.TokenType == xml.StartTagClosePIToken || t.TokenType == xml.ErrorToken {\n\t\t\t\t\tbreak\n\t\t\t\t}\n\t\t\t}\n", New: "\t\t\tfor tb.Shift().TokenType != xml.StartTagClosePIToken {\n\t\t\t}\n",
+		Rule: "R10.8", Construct: "leaves on ErrorToken"})
+	mutant(&Mutant{Name: "c15-pattern-results-cached-in-front-of-the-literals", Property: "C15", File: "minify.go",
+		Old: "\tif minifier, ok := m.literal[string(mimetype)]; ok { // string conversion is optimized away\n\t\treturn minifier.Minify(m, w, r, params)\n\t}\n\tfor _, minifier := range m.pattern {\n\t\tif minifier.pattern.Match(mimetype) {\n",
+		New: "\tif minifier, ok := m.matched.Load(string(mimetype)); ok {\n\t\treturn minifier.(Minifier).Minify(m, w, r, params)\n\t}\n\tif minifier, ok := m.literal[string(mimetype)]; ok { // string conversion is optimized away\n\t\treturn minifier.Minify(m, w, r, params)\n\t}\n\tfor _, minifier := range m.pattern {\n\t\tif minifier.pattern.Match(mimetype) {\n\t\t\tm.matched.Store(string(mimetype), minifier.Minifier)\n",
+		More: [][2]string{{"\tpattern []patternMinifier\n", "\tpattern []patternMinifier\n\tmatched sync.Map\n"}, {"\t\t[]patternMinifier{},\n", "\t\t[]patternMinifier{},\n\t\tsync.Map{},\n"}},
+		Rule: "R15.1", Construct: "M.MinifyMimetype/plan"})
+	mutant(&Mutant{Name: "c09-svg-style-sheet-written-around-the-escaper", Property: "C09", File: "svg/svg.go",
+		Old: "\t\t\t\tminifyBuffer.Reset()\n\t\t\t\tif err := m.MinifyMimetype(defaultStyleType, minifyBuffer, buffer.NewReader(t.Data), defaultStyleParams); err == nil {\n\t\t\t\t\tt.Data = minifyBuffer.Bytes()\n\t\t\t\t} else if err != minify.ErrNotExist {\n\t\t\t\t\treturn minify.UpdateErrorPosition(err, z, t.Offset)\n\t\t\t\t}\n\t\t\t\t// the style sheet is character data like any other: a ]]> in it, in a string for instance, must stay escaped\n\t\t\t\tt.Data, _ = escapeCDATAEnd(t.Data, brackets)\n\t\t\t\tw.Write(t.Data)\n",
+		New: "\t\t\t\tif err := m.MinifyMimetype(defaultStyleType, w, buffer.NewReader(t.Data), defaultStyleParams); err != nil {\n\t\t\t\t\tif err != minify.ErrNotExist {\n\t\t\t\t\t\treturn minify.UpdateErrorPosition(err, z, t.Offset)\n\t\t\t\t\t}\n\t\t\t\t\tt.Data, _ = escapeCDATAEnd(t.Data, brackets)\n\t\t\t\t\tw.Write(t.Data)\n\t\t\t\t}\n",
+		Rule: "R09.17", Construct: "text case hands the output to MinifyMimetype"})
 }
